@@ -173,7 +173,18 @@ func TestC07EndToEndRegress(t *testing.T) {
 
 // ---------------------------------------------------------------------------- full stack units
 
-func full(p Profile) Profile { p.Full = true; p.Name += "Full"; return p }
+// full: the same profile for the full-stack executor. Names under /localhost, /localhop and their
+// look-alikes are more frequent there: which forwarding thread a packet is given to depends on its
+// name, and those prefixes are where dispatch rules make exceptions (seeded C01-r9-2 pinned /localhop
+// Interests to one thread and went on dispatching their token-less Data by name hash).
+func full(p Profile) Profile {
+	p.Full = true
+	p.Name += "Full"
+	if p.Localhost < 25 {
+		p.Localhost = 25
+	}
+	return p
+}
 
 const fullDomain = "the same histories and reference model, but through the full stack: packets enter and leave as NDNLPv2 frames through real link services over in-memory transports, are dispatched by the link service to 1..4 real forwarding threads (name hash / PIT-token thread id) and observed as link-layer frames (independent LpPacket parser). "
 
